@@ -210,9 +210,61 @@ func recordC18(env *Env) {
 		Fatal     int    `json:"fatal"`
 		Hung      int    `json:"hung"`
 		Rc        int    `json:"rc"`
+		At        int    `json:"at"`
 	}
 	fmts := []string{"fasta", "fastq", "json", "csv"}
 	nstreams := env.n
+	// a TRANSIENT failure (one Write refused with EAGAIN, the following ones accepted): whatever the writer does
+	// about it - give up and report, or try again - a run that ends without a report has written every byte of
+	// the healthy output (event "transient")
+	for _, f := range fmts {
+		sizes := make([]int, 150)
+		for j := range sizes {
+			sizes[j] = 1 + env.rng.Intn(3)
+		}
+		push := ident(len(sizes))
+		healthy := runFault(f, false, sizes, push, -1, false, false, nil)
+		for at := 1; at <= 6; at++ {
+			bigBatches = nil
+			snk := newSink()
+			snk.transientAt = at
+			f0 := fatalCount()
+			var r writerRun
+			ended := make(chan struct{})
+			go func() { r = runWriterPatience(f, sizes, push, 1, snk, false, 5*time.Second); close(ended) }()
+			for waiting := true; waiting; {
+				select {
+				case <-ended:
+					waiting = false
+				default:
+					if fatalCount() > f0 {
+						waiting = false // reported: the run is over as far as the rule is concerned
+					} else {
+						time.Sleep(200 * time.Microsecond)
+					}
+				}
+			}
+			time.Sleep(20 * time.Millisecond)
+			select {
+			case <-ended:
+			default:
+				r = writerRun{fatal: true}
+			}
+			snk.mu.Lock()
+			e := ev{Op: "transient", Fmt: f, Sizes: []int{len(sizes)}, Push: []int{}, Total: healthy.accepted, K: -1, Accepted: len(snk.buf), At: at}
+			refused := snk.failedWrite
+			snk.mu.Unlock()
+			if refused == 0 {
+				continue // the output has fewer Write calls than `at`
+			}
+			if fatalCount() > f0 || r.fatal {
+				e.Fatal = 1
+			} else if r.hungIter || r.hungSink {
+				e.Hung = 1
+			}
+			env.emit(e)
+		}
+	}
 	bad := 0
 	for i := 0; i < nstreams && bad < 30; i++ {
 		n := 1 + env.rng.Intn(3)
